@@ -46,10 +46,13 @@ Record xshape := mkshape {
   sh_type_decl : bool;            (* gen_members_parent: nsmap={prefix: ns} beside attrib[XSI_TYPE] *)
   sh_type_keep : bool;            (* _cleanup_namespaces keeps the prefixes used in xsi:type values *)
   sh_xsi_guard : bool;            (* from_element: `if not self.issubclass(newclass, cls): raise ValidationError` *)
-  sh_memberless_base : bool       (* _get_type_info: a base without members of its own is kept as __extends__ when it
+  sh_memberless_base : bool;      (* _get_type_info: a base without members of its own is kept as __extends__ when it
                                      extends a class itself (the parent links of the universe are __extends__) *)
+  sh_soap_inplace : bool          (* Soap11.serialize creates Header and Body as SubElements of the envelope and fills them
+                                     in place (a finished subtree moved into the envelope loses the declarations lxml
+                                     considers redundant, the one of the xsi:type prefix among them) *)
 }.
-Definition shape_ok : xshape := mkshape true true true true true true true true true true.
+Definition shape_ok : xshape := mkshape true true true true true true true true true true true.
 
 (* ------------------------------------------------------------------ 1. TypeInfo (odict) *)
 
